@@ -72,21 +72,22 @@ type traceEnt struct {
 
 // Sched is the scheduler of one episode.
 type Sched struct {
-	gs        []*G
-	cur       *G
-	body      *G
-	steps     int
-	changes   int64
-	timers    []*timer
-	now       time.Duration
-	policy    Policy
-	finished  chan struct{}
-	out       Outcome
-	ended     bool
-	maxSteps  int
-	idleFires int
-	trace     []traceEnt
-	traceOn   bool
+	graceSpent int // polling rounds granted to unmanaged helpers since the last real progress
+	gs         []*G
+	cur        *G
+	body       *G
+	steps      int
+	changes    int64
+	timers     []*timer
+	now        time.Duration
+	policy     Policy
+	finished   chan struct{}
+	out        Outcome
+	ended      bool
+	maxSteps   int
+	idleFires  int
+	trace      []traceEnt
+	traceOn    bool
 	// OnStep, when set, is called (by the goroutine holding the turn) at every scheduling point.
 	nextID int
 	lastID int
@@ -163,7 +164,7 @@ func (s *Sched) wrap(g *G, f func()) {
 			return
 		}
 		g.done = true
-		s.changes++
+		s.bump()
 		s.record(g, "exit")
 		s.sched(g)
 	}()
@@ -281,7 +282,13 @@ func (s *Sched) fire(t *timer) {
 	case t.ch <- time.Unix(0, 0).Add(s.now):
 	default:
 	}
+	s.bump()
+}
+
+// bump records real progress of the episode (a managed operation happened).
+func (s *Sched) bump() {
 	s.changes++
+	s.graceSpent = 0
 }
 
 func (s *Sched) arm(t *timer) {
@@ -331,10 +338,15 @@ func (s *Sched) sched(self *G) {
 				}
 				continue
 			}
-			if !bodyDone && grace < 40 {
-				// unmanaged helpers (context.AfterFunc callbacks) may still be on their way
+			if !bodyDone && grace < 40 && s.graceSpent < 2000 {
+				// unmanaged helpers (context.AfterFunc callbacks) may still be on their way: goroutines parked in
+				// a select are let poll again. The allowance is per episode and refilled by real progress only:
+				// with pollers around (idle workers always are) a per-call allowance never ran out, and a client
+				// waiting for a channel that nobody will ever serve ended as a real-time timeout instead of the
+				// deadlock it is (seen with a seeded change that made Close wait on a channel).
 				grace++
-				time.Sleep(250 * time.Microsecond)
+				s.graceSpent++
+				time.Sleep(500 * time.Microsecond)
 				s.changes++
 				continue
 			}
@@ -417,7 +429,7 @@ func me() (*Sched, *G) {
 // Yield is a plain scheduling point (used by hook points and atomics).
 func Yield(kind string) {
 	s, g := me()
-	s.changes++
+	s.bump()
 	s.record(g, kind)
 	s.sched(g)
 }
@@ -436,7 +448,7 @@ func Steps() int {
 // block parks the current goroutine until pred holds.
 func block(kind, why string, pred func() bool) {
 	s, g := me()
-	s.changes++
+	s.bump()
 	s.record(g, kind)
 	// always park on the predicate: if another goroutine is scheduled first and invalidates it,
 	// this goroutine must not resume before it holds again
@@ -480,7 +492,7 @@ func Go(f func()) {
 	s, g := me()
 	ng := s.newG(fmt.Sprintf("go@%d", s.steps))
 	go s.wrap(ng, f)
-	s.changes++
+	s.bump()
 	s.record(g, "go")
 	s.sched(g)
 }
@@ -490,7 +502,7 @@ func GoNamed(name string, f func()) {
 	s, g := me()
 	ng := s.newG(name)
 	go s.wrap(ng, f)
-	s.changes++
+	s.bump()
 	s.record(g, "go "+name)
 	s.sched(g)
 }
@@ -521,7 +533,7 @@ func NewTimer(d time.Duration) *Timer {
 	s, g := me()
 	t := &timer{at: s.now + d, ch: make(chan time.Time, 1), owner: g}
 	s.arm(t)
-	s.changes++
+	s.bump()
 	s.record(g, "timer-new")
 	s.sched(g)
 	return &Timer{C: t.ch, t: t}
@@ -535,7 +547,7 @@ func (tm *Timer) Stop() bool {
 	if tm.isFunc && active {
 		close(tm.stopCh)
 	}
-	s.changes++
+	s.bump()
 	s.record(g, "timer-stop")
 	s.sched(g)
 	return active
@@ -551,7 +563,7 @@ func (tm *Timer) Reset(d time.Duration) bool {
 	tm.t.fired, tm.t.cancelled = false, false
 	tm.t.at = s.now + d
 	s.arm(tm.t)
-	s.changes++
+	s.bump()
 	s.record(g, "timer-reset")
 	s.sched(g)
 	return active
@@ -571,7 +583,7 @@ func NewTicker(d time.Duration) *Ticker {
 	s, g := me()
 	t := &timer{at: s.now + d, ch: make(chan time.Time, 1), owner: g, period: d}
 	s.arm(t)
-	s.changes++
+	s.bump()
 	s.record(g, "ticker-new")
 	s.sched(g)
 	return &Ticker{C: t.ch, t: t}
@@ -580,7 +592,7 @@ func NewTicker(d time.Duration) *Ticker {
 func (tk *Ticker) Stop() {
 	s, g := me()
 	tk.t.cancelled = true
-	s.changes++
+	s.bump()
 	s.record(g, "ticker-stop")
 	s.sched(g)
 }
@@ -591,7 +603,7 @@ func (tk *Ticker) Reset(d time.Duration) {
 	tk.t.period = d
 	tk.t.at = s.now + d
 	s.arm(tk.t)
-	s.changes++
+	s.bump()
 	s.record(g, "ticker-reset")
 	s.sched(g)
 }
@@ -709,11 +721,41 @@ func (sel *Select) Next() int {
 // Hit reports that the case attempted last succeeded.
 func (sel *Select) Hit() {
 	s, g := me()
-	s.changes++
+	s.bump()
 	s.record(g, "select-hit")
 	for _, t := range sel.timers {
 		if !t.fired {
 			t.cancelled = true
+		}
+	}
+}
+
+// Recv is the managed receive expression `<-ch` where it is part of a larger expression (see tools/rewrite).
+func Recv[T any, C ~chan T | ~<-chan T](ch C) T {
+	v, _ := Recv2[T](ch)
+	return v
+}
+
+// Recv2 is the managed `v, ok := <-ch`.
+func Recv2[T any, C ~chan T | ~<-chan T](ch C) (T, bool) {
+	var rc <-chan T
+	switch c := any(ch).(type) {
+	case chan T:
+		rc = c
+	case <-chan T:
+		rc = c
+	default:
+		panic("detsync: Recv on a named channel type is not supported")
+	}
+	sel := NewSelect(1)
+	for {
+		if sel.Next() == 0 {
+			select {
+			case v, ok := <-rc:
+				sel.Hit()
+				return v, ok
+			default:
+			}
 		}
 	}
 }
